@@ -957,6 +957,9 @@ class Lower:
         if isinstance(t, tuple) and t[0] == "opt" and m == "unwrap_or" and len(args) == 1:
             a, ta = self.ex(args[0], env, t[1] if t[1] in ("S", "N") else None)
             return f"({s}.getD {a})", t[1]
+        if isinstance(t, tuple) and t[0] == "opt" and m == "unwrap" and not args and self.cfg.get("unwrap_keeps_option"):
+            # the model keeps the Option that the Rust code unwraps (a `None` there is the Rust panic)
+            return s, t
         if isinstance(t, tuple) and t[0] == "opt" and m == "unwrap" and not args and self.cfg.get("unwrap_default"):
             # `unwrap` on an option the code's invariant makes `Some`: the model reads `default` otherwise
             return f"({s}.getD default)", t[1]
@@ -1132,7 +1135,7 @@ class Lower:
                 v = st[1][1][1][0]
                 if v in env and v not in out:
                     out.append(v)
-            elif st[0] == "semi" and st[1][0] == "mcall" and st[1][2] == "dedup_by" and st[1][1][0] == "path":
+            elif st[0] == "semi" and st[1][0] == "mcall" and st[1][2] in ("dedup_by", "reverse") and st[1][1][0] == "path":
                 v = st[1][1][1][0]
                 if v in env and v not in out:
                     out.append(v)
@@ -1373,6 +1376,11 @@ class Lower:
                     arms.append("| " + " | ".join(lps) + " => " + bs)
                 rest, rt = self.seq(stmts, i + 1, env, want)
                 return f"(let {val} := (match {sc} with " + " ".join(arms) + f"); {rest})", rt
+            if e[0] == "mcall" and e[2] == "reverse" and not e[3] and e[1][0] == "path" and len(e[1][1]) == 1 and e[1][1][0] in env \
+                    and isinstance(env[e[1][1][0]][1], tuple) and env[e[1][1][0]][1][0] == "list":
+                nm, t = env[e[1][1][0]]
+                rest, rt = self.seq(stmts, i + 1, env, want)
+                return f"(let {nm} := {nm}.reverse; {rest})", rt
             if e[0] == "mcall" and e[2] == "dedup_by" and e[1][0] == "path" and len(e[1][1]) == 1 and e[1][1][0] in env \
                     and len(e[3]) == 1 and e[3][0][0] == "closure" and len(e[3][0][1]) == 2:
                 # pts.dedup_by(|a, b| dist(a, b) <= tol): drop an element within tol of the last retained one
